@@ -23,6 +23,11 @@ that rules are invariant under the commonest behaviour-preserving rewrites:
   N16 `x = []; for a in xs: [if c:] x.append(E)` (adjacent, x not used in E/xs/c)  ->  `x = [E for a in xs if c]`
   N18 a statement `return A or B` / `x = A or B` / `A or B` (likewise `and`) whose later operand calls a method on self is spelled
       out with its short-circuit: `t = A; if not t: t = B; return t` -- so that path rules see that B does not run on every path
+  N20 `for x in (A if c else B): BODY`  ->  `if c: for x in A: BODY  else: for x in B: BODY`  (N7 then unrolls a literal side; N7
+      also unrolls literal tuples of numbers/strings)
+  N21 a local that is re-bound to numbers along one statement list (`start = 0; ...; start = 4; ...`) is written as the number
+      in the statements between two bindings
+  N19 `dict(k=v, ...)` (keywords only)  ->  `{"k": v, ...}`
   N6  `except T as e:` binding is kept, but the py2 idiom `e = sys.exc_info()[1]` as the first statement of a handler
       is rewritten to the binding form (`except T as e:`)
 
@@ -47,6 +52,17 @@ def _is_path(e):
     while isinstance(e, ast.Attribute):
         e = e.value
     return isinstance(e, ast.Name)
+
+
+def _is_lit(e):
+    return isinstance(e, ast.Constant) and isinstance(e.value, (int, float, str, bytes)) and not isinstance(e.value, bool)
+
+
+def _unrollable(it):
+    n = len(it.elts)
+    if all(_is_lit(e) for e in it.elts):
+        return 1 <= n <= 8
+    return 1 <= n <= 4 and all(_is_path(e) or _is_lit(e) for e in it.elts)
 
 
 def _strip_ctx(e):
@@ -89,9 +105,19 @@ class Desugar(ast.NodeTransformer):
                 return ast.copy_location(ast.AugAssign(target=t, op=v.op, value=v.left), n)
         return n
 
-    def visit_For(self, n):
-        self.generic_visit(n)
-        if isinstance(n.iter, (ast.Tuple, ast.List)) and 1 <= len(n.iter.elts) <= 4 and all(_is_path(e) for e in n.iter.elts) \
+    def visit_For(self, n, _visited=False):
+        if not _visited:
+            self.generic_visit(n)
+        # N20: for x in (A if c else B): BODY   ->   if c: for x in A: BODY  else: for x in B: BODY
+        if isinstance(n.iter, ast.IfExp) and not n.orelse:
+            a = ast.copy_location(ast.For(target=copy.deepcopy(n.target), iter=n.iter.body, body=copy.deepcopy(n.body), orelse=[]), n)
+            b = ast.copy_location(ast.For(target=copy.deepcopy(n.target), iter=n.iter.orelse, body=copy.deepcopy(n.body), orelse=[]), n)
+            ra, rb = self.visit_For(a, True), self.visit_For(b, True)
+            new = ast.copy_location(ast.If(test=n.iter.test, body=ra if isinstance(ra, list) else [ra],
+                                           orelse=rb if isinstance(rb, list) else [rb]), n)
+            ast.fix_missing_locations(new)
+            return new
+        if isinstance(n.iter, (ast.Tuple, ast.List)) and _unrollable(n.iter) \
                 and isinstance(n.target, ast.Name) and not n.orelse:
             # `if C: continue` followed by REST  ==  `if not C: REST`   (only here, to make the body unrollable)
             def fold(stmts):
@@ -106,7 +132,7 @@ class Desugar(ast.NodeTransformer):
             if not any(isinstance(x, (ast.Break, ast.Continue)) for s_ in folded for x in ast.walk(s_)):
                 n.body = folded
                 ast.fix_missing_locations(n)
-        if isinstance(n.iter, (ast.Tuple, ast.List)) and 1 <= len(n.iter.elts) <= 4 and all(_is_path(e) for e in n.iter.elts) \
+        if isinstance(n.iter, (ast.Tuple, ast.List)) and _unrollable(n.iter) \
                 and isinstance(n.target, ast.Name) and not n.orelse \
                 and not any(isinstance(x, (ast.Break, ast.Continue)) for s_ in n.body for x in ast.walk(s_)) \
                 and not any(isinstance(x, ast.Name) and x.id == n.target.id and isinstance(x.ctx, ast.Store) for s_ in n.body for x in ast.walk(s_)):
@@ -134,6 +160,10 @@ class Desugar(ast.NodeTransformer):
 
     def visit_Call(self, n):
         self.generic_visit(n)
+        # N19: dict(k=v, ...) with keywords only  ->  {"k": v, ...}
+        if isinstance(n.func, ast.Name) and n.func.id == "dict" and not n.args and n.keywords and all(k.arg for k in n.keywords):
+            return ast.copy_location(ast.Dict(keys=[ast.copy_location(ast.Constant(value=k.arg), n) for k in n.keywords],
+                                              values=[k.value for k in n.keywords]), n)
         if isinstance(n.func, ast.Name) and n.func.id in ("max", "min", "sum", "any", "all") and len(n.args) == 1 and not n.keywords \
                 and isinstance(n.args[0], (ast.GeneratorExp, ast.ListComp)):
             g = n.args[0]
@@ -268,6 +298,14 @@ class Desugar(ast.NodeTransformer):
                 new = ast.copy_location(ast.If(test=v.test, body=[a], orelse=[b]), st)
                 ast.fix_missing_locations(new)
                 out.append(new)
+            elif isinstance(st, ast.Expr) and isinstance(st.value, ast.Call) and len(st.value.args) == 1 and not st.value.keywords \
+                    and isinstance(st.value.args[0], ast.IfExp) and _is_path(st.value.func):
+                v = st.value.args[0]
+                a = ast.copy_location(ast.Expr(value=ast.Call(func=copy.deepcopy(st.value.func), args=[v.body], keywords=[])), st)
+                b = ast.copy_location(ast.Expr(value=ast.Call(func=copy.deepcopy(st.value.func), args=[v.orelse], keywords=[])), st)
+                new = ast.copy_location(ast.If(test=v.test, body=[a], orelse=[b]), st)
+                ast.fix_missing_locations(new)
+                out.append(new)
             elif isinstance(st, ast.Return) and isinstance(st.value, ast.IfExp):
                 v = st.value
                 a = ast.copy_location(ast.Return(value=v.body), st)
@@ -311,6 +349,38 @@ class Desugar(ast.NodeTransformer):
                 ast.copy_location(n, st)
                 ast.fix_missing_locations(n)
             out.extend(new)
+        return out
+
+    def _propagate_constants(self, stmts):
+        # N21: in one statement list, a local bound to a number is written as that number in the following simple statements
+        # (assignments, expression statements, returns, and the tests/headers of compound statements that do not rebind it), up
+        # to its next assignment.  Only names that are bound at least twice in the list (a running cursor: `start = 0 ...
+        # start = 4 ...`), so that ordinary named constants keep their names.
+        counts = {}
+        for st in stmts:
+            if isinstance(st, ast.Assign) and len(st.targets) == 1 and isinstance(st.targets[0], ast.Name) and _is_num(st.value):
+                counts[st.targets[0].id] = counts.get(st.targets[0].id, 0) + 1
+        cursors = set(k for k, v in counts.items() if v >= 2)
+        if not cursors:
+            return stmts
+        env = {}
+        out = []
+        for st in stmts:
+            stores = set(x.id for x in ast.walk(st) if isinstance(x, ast.Name) and isinstance(x.ctx, (ast.Store, ast.Del)))
+            if isinstance(st, ast.Assign) and len(st.targets) == 1 and isinstance(st.targets[0], ast.Name) and st.targets[0].id in cursors \
+                    and _is_num(st.value):
+                env[st.targets[0].id] = st.value
+                out.append(st)
+                continue
+            live = dict((k, v) for k, v in env.items() if k not in stores)
+            if live and not isinstance(st, (ast.FunctionDef, ast.AsyncFunctionDef, ast.ClassDef, ast.For, ast.While, ast.AugAssign)):
+                for k, v in live.items():
+                    st = _SubstName(k, v).visit(st)
+            for k in stores:
+                env.pop(k, None)
+            if isinstance(st, (ast.For, ast.While)):
+                env.clear()
+            out.append(st)
         return out
 
     def _loops_to_builtins(self, stmts):
@@ -395,6 +465,7 @@ class Desugar(ast.NodeTransformer):
         visited = self._return_temps(visited)
         visited = self._split_parallel_assignments(visited)
         visited = self._dict_calls(visited)
+        visited = self._propagate_constants(visited)
         visited = self._ifexp_statements(visited)
         visited = self._shortcircuit_statements(visited)
         for s in visited:
